@@ -127,48 +127,6 @@ pub proof fn lemma_wrong_old(a: G1Projective, sk_e: Scalar, base: G1Projective, 
     }
 }
 
-pub proof fn lemma_s_sub_zero(a: Scalar, b: Scalar)   //# C12.thm.s_sub_zero
-    requires s_sub(a, b) == s_zero(),
-    ensures a == b,
-{
-    // a == a + (-b + b) == (a + -b) + b == 0 + b == b
-    ax_s_add_comm(s_neg(b), b);
-    ax_s_add_neg(b);
-    ax_s_add_zero(a);
-    ax_s_add_assoc(a, s_neg(b), b);
-    ax_s_add_comm(s_zero(), b);
-    ax_s_add_zero(b);
-}
-
-pub proof fn lemma_s_add_cancel_left(a: Scalar, x: Scalar, y: Scalar)   //# C12.thm.s_cancel
-    requires s_add(a, x) == s_add(a, y),
-    ensures x == y,
-{
-    // x == (-a + a) + x == -a + (a + x)
-    ax_s_add_assoc(s_neg(a), a, x);
-    ax_s_add_assoc(s_neg(a), a, y);
-    ax_s_add_comm(s_neg(a), a);
-    ax_s_add_neg(a);
-    ax_s_add_comm(s_zero(), x);
-    ax_s_add_comm(s_zero(), y);
-    ax_s_add_zero(x);
-    ax_s_add_zero(y);
-}
-
-pub proof fn lemma_s_neg_inj(a: Scalar, b: Scalar)   //# C12.thm.s_neg_inj
-    requires s_neg(a) == s_neg(b),
-    ensures a == b,
-{
-    // a == a + (-b + b) == (a + -a) + b == b   using -a == -b
-    ax_s_add_neg(a);
-    ax_s_add_comm(s_neg(b), b);
-    ax_s_add_neg(b);
-    ax_s_add_zero(a);
-    ax_s_add_assoc(a, s_neg(b), b);
-    ax_s_add_comm(s_zero(), b);
-    ax_s_add_zero(b);
-}
-
 // ---- histories -------------------------------------------------------------------------------------------
 /// message vector after the first k updates of `ups` = ((position, new value), ...)
 pub open spec fn hist_msgs(m0: Seq<Scalar>, ups: Seq<(int, Scalar)>, k: int) -> Seq<Scalar>
